@@ -45,7 +45,21 @@ def make_adder_check(w, rep):
     return adder_check
 
 
+def typed_reps(repo, mod, kind):
+    """one representation per coordinate field class of the module (FQ, FQ2, FQ12): used when a function dispatches on the type
+    of its coordinates, which an untyped symbolic coordinate cannot answer"""
+    from ..ecalg import FieldSymClass
+    out = []
+    m = repo.module(mod)
+    for nm in ("FQ", "FQ2", "FQ12"):
+        r = repo.resolve_binding(m, nm)
+        if r and r[0] == "class":
+            out.append((nm, Rep(kind, FieldSymClass(tag=r[1]))))
+    return out
+
+
 def law_checks(chk, rule, repo, w, mod, kind):
+    from ..curvelaw import ConcreteCoord
     rep = Rep(kind)
     aff = Rep("affine")
     kw = dict(native_fields=False)
@@ -55,7 +69,15 @@ def law_checks(chk, rule, repo, w, mod, kind):
                                     ("neg", ONE, cases_neg, "point"), ("eq", TWO, cases_eq, "bool"),
                                     ("is_inf", ONE, cases_isinf, "bool")):
         f = fn(name)
-        n += record(chk, rule, f, *check_function(w, lambda it, a, f=f: it.call_func(f, list(a), {}), rep, rep, combos, table, rk, **kw))
+        try:
+            n += record(chk, rule, f, *check_function(w, lambda it, a, f=f: it.call_func(f, list(a), {}), rep, rep, combos, table, rk, **kw))
+        except ConcreteCoord:
+            # the function returns field-class-specific constants: decide it once per coordinate field of the module
+            for nm, trep in typed_reps(repo, mod, kind):
+                obs, np_ = check_function(w, lambda it, a, f=f: it.call_func(f, list(a), {}), trep, trep, combos, table, rk, **kw)
+                for o in obs:
+                    chk.ob(rule, f.qualname, f"[{nm} coordinates] {o.combo} | {o.case}", o.ok, o.detail, f.where)
+                n += np_
     f = fn("is_on_curve")
     b = FieldSym.var("b")
     n += record(chk, rule, f, *check_function(w, lambda it, a, f=f: it.call_func(f, [a[0], b], {}), rep, rep, ONE,
